@@ -58,6 +58,15 @@ _bounded('C16', 'reordering and skyline LU structure', [])
 _bounded('C17', 'matrix adapters', [])
 _bounded('C19', 'binary reader safety', [])
 PROPS['C10']['safety_only'] = True
+for _p in ('C01', 'C15', 'C05', 'C02', 'C03', 'C18'):
+    PROPS[_p] = dict(
+        level='proof',
+        claim='Typestate + ghost-trace contracts on the real orchestration bodies (solver operator(), cycle, apply), every backend primitive replaced by its contract; inductive loop contracts, no bound on sizes or iteration counts.',
+        note='Decides the data-flow / call-sequence clauses of the property (see evidence clauses_decided / clauses_not_decided); spectral and floating-point clauses are not decided by this family.',
+        technique='CBMC code contracts (dfcc) on solver/preconditioner bodies extracted from /repo; callee contracts replaced at call sites; typestate and ghost call-trace; uninterpreted scalar algebra',
+        explanation='Contracts on the orchestration layer: see units[].',
+        decided=[], not_decided=[], trusted=COMMON_TRUST)
+
 
 NOT_APPLICABLE = {
     'C01': 'units not built yet (planned: typestate contracts on the solver bodies)',
